@@ -58,7 +58,7 @@ func (t *TreeCacheClientImpl) IntendedPathExists(ctx context.Context, path []str
 		t.intendedStoreIndexMutex.RLock()
 	}
 	defer t.intendedStoreIndexMutex.RUnlock()
-	_, exists := t.intendedStoreIndex[strings.Join(path, KeysIndexSep)]
+	_, exists := t.intendedStoreIndex[PathKey(path)]
 	return exists, nil
 }
 
@@ -105,7 +105,7 @@ func (c *TreeCacheClientImpl) readStoreKeysMeta(ctx context.Context, store cache
 			if !ok {
 				return result, nil
 			}
-			key := strings.Join(e.GetPath(), KeysIndexSep)
+			key := PathKey(e.GetPath())
 			_, exists := result[key]
 			if !exists {
 				result[key] = UpdateSlice{}
@@ -117,7 +117,7 @@ func (c *TreeCacheClientImpl) readStoreKeysMeta(ctx context.Context, store cache
 
 func (c *TreeCacheClientImpl) GetBranchesHighesPrecedence(ctx context.Context, path []string, filters ...CacheUpdateFilter) int32 {
 	result := int32(math.MaxInt32)
-	pathKey := strings.Join(path, KeysIndexSep)
+	pathKey := PathKey(path)
 	c.intendedStoreIndexMutex.RLock()
 	if c.intendedStoreIndex == nil {
 		c.intendedStoreIndexMutex.RUnlock()
@@ -200,7 +200,7 @@ func (c *TreeCacheClientImpl) ReadRunningPath(ctx context.Context, path PathSlic
 	}
 	defer c.runningStoreIndexMutex.RUnlock()
 	// check if the value exists in running
-	_, exists := c.runningStoreIndex[strings.Join(path, KeysIndexSep)]
+	_, exists := c.runningStoreIndex[PathKey(path)]
 	if !exists {
 		return nil, nil
 	}
